@@ -35,6 +35,16 @@ pub fn generate_c04(tier: &str, rng: &mut Prng) -> Vec<Case> {
             ops.push(Case::new(line));
             ops.push(Case::traced(format!("key_check {n} {} {} {} {} {}", ints(&f), ints(&g), ints(&cf), ints(&cg), ints(&k.h)), "ok".to_string()));
         }
+        // seeds whose candidate stream touches one of ntru_gen's guards (corpus/special_seeds.txt): a candidate with a zero
+        // NTT slot, a Gram-Schmidt norm next to the bound, coefficients at the range limits
+        for (kind, q) in [("ntt_zero", 6), ("gamma_below", 4), ("gamma_above", 4), ("range_fg", 3), ("range_capital", 3)] {
+            for seed in crate::seeds::special(n, tier, kind, q) {
+                let k = keygen_info(n, &seed);
+                let (f, g, cf, cg) = fgfg(&k);
+                ops.push(Case::new(format!("keygen {n} {}", hex(&seed))));
+                ops.push(Case::traced(format!("key_check {n} {} {} {} {} {}", ints(&f), ints(&g), ints(&cf), ints(&cg), ints(&k.h)), "ok".to_string()));
+            }
+        }
     }
     ops
 }
@@ -110,6 +120,9 @@ pub fn generate_c05(tier: &str, rng: &mut Prng) -> Vec<Case> {
             .collect();
         for _ in 0..per {
             seeds.push(seed_for(rng, 5));
+        }
+        for (kind, q) in [("range_fg", 3), ("range_capital", 4), ("gamma_above", 2)] {
+            seeds.extend(crate::seeds::special(n, tier, kind, q));
         }
         for seed in seeds {
             ops.push(Case::new(format!("sk_roundtrip {n} {}", hex(&seed))));
@@ -222,6 +235,21 @@ pub fn generate_c15(tier: &str, rng: &mut Prng) -> Vec<Case> {
             let seed = if i == 0 { vec![0u8; 32] } else { seed_for(rng, 15) };
             ops.push(Case::new(format!("keygen_digest {n} {}", hex(&seed))));
         }
+        // seeds made of extreme byte values (arithmetic on seed bytes that saturates or wraps loses bits exactly there)
+        let extremes: Vec<Vec<u8>> = if thorough {
+            vec![vec![0xffu8; 32], vec![0x80u8; 32], vec![0x7fu8; 32], vec![0xf0u8; 32], vec![0x0fu8; 32]]
+        } else {
+            vec![vec![0xffu8; 32], if n == 512 { vec![0x80u8; 32] } else { vec![0x7fu8; 32] }]
+        };
+        for seed in extremes {
+            ops.push(Case::new(format!("keygen_digest {n} {}", hex(&seed))));
+        }
+        // the first candidate that the real key generation draws (through gen_b0) must be the one the model derives
+        // from the seed
+        for i in 0..(if thorough { 8 } else { 2 }) {
+            let seed = if i == 0 { vec![0xa5u8; 32] } else { seed_for(rng, 17) };
+            ops.push(Case::new(format!("first_drawn {n} {}", hex(&seed))));
+        }
         for i in 0..(if thorough { 24 } else { 3 }) {
             let seed = if i == 0 { vec![0xffu8; 32] } else { seed_for(rng, 16) };
             ops.push(Case::new(format!("first_candidate {n} {}", hex(&seed))));
@@ -267,7 +295,12 @@ pub fn oracle_c15(op: &[&str], out: &str) -> Verdict {
             // every seed bit matters for the key pair itself: first / last bits of the seed and a few in between
             let mut s32 = seed.clone();
             s32.resize(32, 0);
-            let bits: Vec<usize> = vec![0, 7, 100, 191, 248, 249, 250, 251, 252, 253, 254, 255];
+            let extreme = seed.len() == 32 && seed.iter().all(|&b| b == seed[0]) && seed[0] != 0;
+            let bits: Vec<usize> = if extreme {
+                (0..8).chain(128..136).chain(248..256).collect()
+            } else {
+                vec![0, 7, 100, 191, 248, 249, 250, 251, 252, 253, 254, 255]
+            };
             let same: Vec<usize> = std::thread::scope(|sc| {
                 let hs: Vec<_> = bits
                     .iter()
@@ -284,6 +317,13 @@ pub fn oracle_c15(op: &[&str], out: &str) -> Verdict {
                 return Verdict::Fail(format!("flipping seed bit(s) {:?} leaves the key pair unchanged", same));
             }
             Verdict::Pass
+        }
+        "first_drawn" => {
+            if out == op_first_candidate(n, &seed) {
+                Verdict::Pass
+            } else {
+                Verdict::NotApplicable
+            }
         }
         "first_candidate" => {
             // every seed bit matters already for the first candidate polynomials
